@@ -106,6 +106,14 @@ pub fn cases(tier: Tier) -> Vec<Case> {
             }
         }
     }
+    // every input length 0..=300 once (hash block boundaries, scratch-buffer sizes): first input of
+    // length n, second of length 300 - n, through the client's own salt derivation
+    for n in 0..=300u16 {
+        v.push(Case { hmac: 2, hmac_mc: true, register: false, ctap: false, uv_required: true, verified: true, secrets: 2, eval: 2, ebc: if n % 2 == 0 { 0 } else { 2 }, allow: 2, variant: 0, len: n, len2: Some(300 - n), dict: None });
+        if n % 4 == 0 {
+            v.push(Case { hmac: 2, hmac_mc: true, register: true, ctap: false, uv_required: true, verified: true, secrets: 0, eval: 2, ebc: 0, allow: 0, variant: 0, len: n, len2: Some(300 - n), dict: None });
+        }
+    }
     // inputs that are constants of the code: "one input per shortcut you can see in the code"
     for l in crate::core::dict::source_literals(&["passkey-client", "passkey-authenticator", "passkey-types"], 64) {
         for hmac in 1..3u8 {
